@@ -83,6 +83,12 @@ def handle (line : String) : String :=
           showCps s ++ " " ++ showCps (plain t) ++ " " ++ showCps (strip cls fin s)) (mkChunks cfg parts)
       | none => "bad-op"
     | none => "bad-op"
+  | ["pfmt", text] =>     -- `ColorFmt.get_plaintext_fmt()` = `ColorFmt(None)`
+    match parseCps text with
+    | some t =>
+      showExcept (fun c => showCps (render [c]))
+        (mkChunk cfg ⟨.none, .none, none, none, none, none, none, false⟩ t)
+    | none => "bad-op"
   | ["strip", text] =>
     match parseCps text with
     | some t => "ok " ++ showCps (strip cls fin t)
